@@ -70,24 +70,60 @@ Definition each_pair (n : nat) (f : tv -> tv -> bool) : tv -> bool :=
 Definition on_Z (f : Z -> bool) : tv -> bool := fun v => match v with TZ z => f z | _ => false end.
 Definition on_S (f : string -> bool) : tv -> bool := fun v => match v with TS s => f s | _ => false end.
 
+(* a keyed item: one [TP key value] of a table whose model side is the list [m] … *)
+Definition in_list (m : list tv) : tv -> bool := fun v => tv_mem v m.
+(* … or a function evaluated on the key *)
+Definition on_pair (f : tv -> tv -> bool) : tv -> bool :=
+  fun v => match v with TP a b => f a b | _ => false end.
+(* element [i] of an ordered list: [TP (TZ i) x] *)
+Definition nth_of (m : list tv) : tv -> bool :=
+  fun v => match v with
+           | TP (TZ i) x => (0 <=? i)%Z && Nat.ltb (Z.to_nat i) (List.length m)
+                            && tv_eqb (nth (Z.to_nat i) m (TZ 0)) x
+           | _ => false
+           end.
+
 (* ---- cases and the checker ---- *)
 
 Inductive case :=
 | CTab (name : string) (v : tv)        (* item [name] regenerated from the source as [v] *)
 | CNames (names : list string).        (* all items the harness regenerated in this run *)
 
+(* An entry named "t[]" tests every item "t[<key>]" (one per key of a regenerated table, the
+   value being the pair [TP key value]); the number of keys is the separate item "t[#]". *)
 Definition entry : Type := string * (tv -> bool).
+
+Definition table_of (n : string) : option string :=
+  match index 0 "[" n with
+  | Some i => Some (substring 0 i n ++ "[]")%string
+  | None => None
+  end.
+
+Definition lookup (tab : list entry) (n : string) : option entry :=
+  match find (fun e : entry => String.eqb (fst e) n) tab with
+  | Some e => Some e
+  | None => match table_of n with
+            | Some t => find (fun e : entry => String.eqb (fst e) t) tab
+            | None => None
+            end
+  end.
 
 Definition check_tab (tab : list entry) (c : case) : Z :=
   match c with
   | CTab n v =>
-      match find (fun e : entry => String.eqb (fst e) n) tab with
+      match lookup tab n with
       | Some e => if snd e v then 0%Z else 1%Z
       | None => 1%Z                       (* an item the model side does not know *)
       end
   | CNames ns =>
       (* every item of the model-side table was regenerated *)
-      if forallb (fun e : entry => existsb (String.eqb (fst e)) ns) tab then 0%Z else 1%Z
+      if forallb (fun e : entry =>
+                    existsb (fun n => String.eqb (fst e) n
+                                      || match table_of n with
+                                         | Some t => String.eqb (fst e) t
+                                         | None => false
+                                         end) ns) tab
+      then 0%Z else 1%Z
   end.
 
 Definition run_tab (tab : list entry) (cs : list (Z * case)) : list (Z * Z) :=
